@@ -94,8 +94,10 @@ def kernel_runs(col, rng, tier):
                                   initial_step_size=0.6, da_tune_step_size=True, da_target_accept=0.4, da_gamma=0.09, da_kappa=0.7, da_t0=4),
     }
     n_tr = 6 if tier == "quick" else 25
-    for kind, make in mk.items():
+    for kind, make, reconf in [(kd, mk_, False) for kd, mk_ in mk.items()] + [(kd, mk_, True) for kd, mk_ in mk.items()]:
         k = make()
+        if reconf:  # constants re-configured through the public attributes after construction: "the kernel's constants" are the current ones
+            k.da_target_accept, k.da_gamma, k.da_kappa, k.da_t0 = 0.55, 0.2, 0.65, 2
         k.set_model(model)
         key = jax.random.PRNGKey(int(rng.integers(0, 2**31)))
         ks = k.init_state(key, ms0)
@@ -137,7 +139,8 @@ def kernel_runs(col, rng, tier):
             elif not close(ks.step_size, step_at_start):
                 bad = bad or f"{etype.name}: step size changed over a non-adaptation epoch ({step_at_start} -> {float(ks.step_size)})"
             tbe += dur
-        col.add({"sig": f"native::da::kernel::{kind}", "what": f"{kind}: {bad}", "input": {"kernel": kind, "transitions_per_adaptation_epoch": n_tr}} if bad else None)
+        col.add({"sig": f"native::da::kernel::{kind}" + ("::reconfigured" if reconf else ""), "what": f"{kind}{' (da_* attributes re-assigned after construction)' if reconf else ''}: {bad}",
+                 "input": {"kernel": kind, "transitions_per_adaptation_epoch": n_tr, "constants_reassigned_after_construction": reconf}} if bad else None)
 
 
 def divergent_case(col):
@@ -186,7 +189,7 @@ def bounded(tier, seed):
         "distinct_nontrivial": col.evals,
         "rule": (f"BOUNDED: real da_init/da_step/da_finalize on {n_seq} seeded (eps0, delta, gamma, kappa, t0, alpha sequence of length {length}) x 2 epochs "
                  "against a float64 reference of H&G Alg. 5 (relative tolerance 2e-4, float32 code), with a monotonicity probe at every step; "
-                 "the five adapting kernels (RW, IWLS, HMC, NUTS, MH with tuning) driven through FAST/SLOW/BURNIN/POSTERIOR epochs on a Gaussian dict model; NUTS and HMC on a target with a stiff wall (divergent transitions with positive acceptance probability). "
+                 "the five adapting kernels (RW, IWLS, HMC, NUTS, MH with tuning) driven through FAST/SLOW/BURNIN/POSTERIOR epochs on a Gaussian dict model, once as constructed and once with the da_* attributes re-assigned after construction; NUTS and HMC on a target with a stiff wall (divergent transitions with positive acceptance probability). "
                  "Each sequence / kernel run is one distinct case."),
         "samples": [{"kernel": "NUTS", "epochs": ["FAST", "SLOW", "BURNIN", "POSTERIOR"]}],
         "exhaustive": False,
